@@ -28,6 +28,42 @@ TITLES = {
 
 # property -> (technique, level text, level note, design section)
 CHECKS = {
+    "C01": (
+        "exhaustive enumeration of token sequences + Hypothesis grammar-generated sentences, near-miss mutations and "
+        "character-level strings; differential against an independent reference tokeniser and precedence-climbing "
+        "parser (vf/refparse.py) plus metamorphic relations (fully parenthesised form, whitespace / parenthesis variants)",
+        "Every string of up to 4 (quick) / 5 (thorough; 6 over a 14-symbol sub-alphabet) tokens over a 28-symbol alphabet "
+        "is classified by a reference grammar written from the statement (strict and loose reading of '~ lowest, then |'); "
+        "non-sentences must be rejected, an accepted sentence must have the reference tree (Grouping kept), the tokens the "
+        "reference tokeniser finds, and the same model as its fully parenthesised form.  Hypothesis generates deep "
+        "sentences of the term language and of arbitrary expression shape, renders them with drawn whitespace and "
+        "redundant parentheses (base and variants must agree on accept/reject and on the model), mutates them into near "
+        "misses, and draws character-level strings.",
+        "Exploration.  Trusted: vf/refparse.py (cross-checked against the generator's own parenthesisation rule on every "
+        "generated sentence).  Rejection of a grammatical sentence is allowed by the statement and is not judged.",
+        "DESIGN.md section 3, C01",
+    ),
+    "C03": (
+        "exhaustive enumeration of term families + Hypothesis-generated mixed families; linear-algebra oracle (rank and "
+        "column-space equality against the complete-indicator coding, vf/refcoding.py)",
+        "For every family the design matrix is built on a replicated complete factorial and compared by SVD rank with the "
+        "complete-indicator coding of the written terms: columns independent, spaces equal.  All 32767 families over four "
+        "two-level factors x intercept (thorough; a seeded 1/16 slice in quick) with drawn term and factor orders and "
+        "column dtypes; all families of <= 2 terms over f g h x in every order; drawn families of <= 5 terms over plain, "
+        "C/T/S-coded, scale/center/bs/poly/pointwise atoms with six intercept spellings.",
+        "Exploration.  Numerical rank (tolerance 1e-8 relative).  Data are constructed to satisfy the premise (fully crossed, "
+        "general position); cases whose single terms are not of full rank are counted and not judged.",
+        "DESIGN.md section 3, C03",
+    ),
+    "C04": (
+        "Hypothesis-generated (formula, frame) pairs; oracle = label semantics recomputed from the frame (vf/refcoding.label_value)",
+        "Each column of the common, group-specific and response matrices is recomputed from its label alone (numeric "
+        "piece = values, v[l] = indicator, ':' = product, e|g[l] = e on the rows of group l) on arbitrary frames with "
+        "unequal level counts, str / Categorical / ordered columns, custom indexes; label count, uniqueness and order, and "
+        "the level order of every categorical atom (sorted / declared) are checked.",
+        "Exploration.  Only atoms whose labels have a pointwise meaning are generated; which columns exist is C03/C05.",
+        "DESIGN.md section 3, C04",
+    ),
     "C02": (
         "exhaustive enumeration + Hypothesis-generated operator trees, differential against an independent "
         "reference Wilkinson-Rogers term algebra (vf/refalgebra.py)",
